@@ -7,6 +7,7 @@
 #define _GNU_SOURCE
 #include <errno.h>
 #include <pthread.h>
+#include <sched.h>
 #include <signal.h>
 #include <stdio.h>
 #include <stdlib.h>
@@ -86,6 +87,16 @@ static void *cycle_thread(void *arg)
     const char *s = reproc_strerror(code);
     char exp[256]; const char *e = strerror_r(-code, exp, sizeof exp);
     if (!s || strcmp(s, e) != 0) fail("strerror", tid, code, 0);
+    /* ... also for values the system has no message for (an exit status handed to reproc_strerror): whatever the text is, it is
+       this thread's own and does not change under it while other threads ask about other values */
+    const char *u = reproc_strerror(1000 + tid);
+    char keepu[128]; snprintf(keepu, sizeof keepu, "%s", u ? u : "");
+    sched_yield();
+    const char *u2 = reproc_strerror(-(137 + tid));
+    char keepu2[128]; snprintf(keepu2, sizeof keepu2, "%s", u2 ? u2 : "");
+    sched_yield();
+    if (!u2 || strcmp(u2, keepu2) != 0) fail("strerror-unknown", tid, 137 + tid, 0);
+    (void) keepu;
     reproc_destroy(p);
   }
   return NULL;
